@@ -354,8 +354,13 @@ def replay(cand: dict) -> dict:
 
     k = d["kernel"]
     wikidb = None
+    raws = None
     if k in ("resolve_entity",):
-        raw = "text " + d["entity"] + " more"
+        e = d["entity"]
+        raw = "text " + e + " more"
+        # entities are resolved by the scanner's own grammar in running text, but by a looser regex inside nowiki/pre
+        raws = [raw, "<nowiki>" + e + "</nowiki>", "<pre>x " + e + " y</pre>", " " + e + " (preformatted line)",
+                '<div title="' + e + '">x</div>', "[[Link" + e + "|t" + e + "]]", "<math>" + e + "</math> <source>" + e + "</source>"]
     elif k == "replace_html_entities":
         raw = "<nowiki>" + d["text"] + "</nowiki> " + d["text"]
     elif k == "compute_path":
@@ -380,21 +385,24 @@ def replay(cand: dict) -> dict:
 
     resource.setrlimit(resource.RLIMIT_AS, (2 * 1024**3, 2 * 1024**3))
     failures = []
-    for lang in ("en", "de", "fr", "ja"):
-        signal.signal(signal.SIGALRM, on_alarm)
-        signal.alarm(10)
-        try:
-            uparser.parse_string("T", raw, wikidb=wikidb, lang=lang)
-        except Timeout:
-            failures.append((lang, "no result after 10 s (input of %d characters)" % len(raw)))
-        except MemoryError:
-            failures.append((lang, "MemoryError (2 GiB) for an input of %d characters" % len(raw)))
-        except Exception as e:
-            failures.append((lang, type(e).__name__ + ": " + str(e)[:100]))
-        finally:
-            signal.alarm(0)
-        if failures:
-            break
+    for raw in (raws or [raw]):
+      for lang in ("en", "de", "fr", "ja"):
+          signal.signal(signal.SIGALRM, on_alarm)
+          signal.alarm(10)
+          try:
+              uparser.parse_string("T", raw, wikidb=wikidb, lang=lang)
+          except Timeout:
+              failures.append((lang, "no result after 10 s (input of %d characters)" % len(raw)))
+          except MemoryError:
+              failures.append((lang, "MemoryError (2 GiB) for an input of %d characters" % len(raw)))
+          except Exception as e:
+              failures.append((lang, type(e).__name__ + ": " + str(e)[:100]))
+          finally:
+              signal.alarm(0)
+          if failures:
+              break
+      if failures:
+          break
     if not failures:
         return {"reproduced": False, "not_liftable": True, "what": f"kernel {k} fails on {d} but parse_string({raw!r}) returns normally"}
     kind = failures[0][1].split(":")[0].split(" (")[0]
